@@ -117,6 +117,22 @@ impl<K, V> OrderedMap<K, V> {
             },
     { unimplemented!() }
 }
+impl<K, V> OrderedMap<K, V> {
+    /// the order in which `values_mut()` visits the map (insertion order, indexmap): its keys, each exactly once (R29b)
+    pub uninterp spec fn order(&self) -> Seq<K>;
+    #[verifier::external_body]
+    pub fn len(&self) -> (r: usize)
+        ensures r == self.order().len(), self.order().no_duplicates(),
+            forall|k: K| self@.contains_key(k) <==> #[trigger] self.order().contains(k),
+    { unimplemented!() }
+    /// the i-th step of `values_mut()`
+    #[verifier::external_body]
+    pub fn value_mut_at(&mut self, i: usize) -> (r: &mut V)
+        requires i < old(self).order().len(),
+        ensures old(self)@.contains_key(old(self).order()[i as int]), *r == old(self)@[old(self).order()[i as int]],
+            final(self)@ == old(self)@.insert(old(self).order()[i as int], *final(r)), final(self).order() == old(self).order(),
+    { unimplemented!() }
+}
 /// `guard.get_or_insert(OrderedMap::new())`: the map behind the lock, created empty if there was none
 #[verifier::external_body]
 pub fn opt_get_or_insert_new<K, V>(g: &mut Option<OrderedMap<K, V>>) -> (r: &mut OrderedMap<K, V>)
@@ -154,6 +170,13 @@ impl<T> OnceCell<T> {
 pub struct OneshotSender { _p: u8 }
 /// outcome of resolving the send that owns `s` with `v` (Ok: the waiting send future completes with v)
 pub uninterp spec fn oneshot_send(s: OneshotSender, v: Option<DeliveryState>) -> Result<(), Option<DeliveryState>>;
+impl OneshotSender {
+    /// nobody waits on this sending half: its receiving half has been dropped
+    pub uninterp spec fn detached(&self) -> bool;
+}
+/// `let (closed, _) = oneshot::channel();`: the sending half of a new channel whose receiving half is dropped at once (`_` does not bind)
+#[verifier::external_body]
+pub fn oneshot_detached_sender() -> (r: OneshotSender) ensures r.detached() { unimplemented!() }
 impl OneshotSender {
     #[verifier::external_body]
     pub fn send(self, v: Option<DeliveryState>) -> (r: Result<(), Option<DeliveryState>>)
@@ -234,6 +257,13 @@ impl UnsettledMessage {
 //@@ spec
     ensures r == oneshot_send(self.sender, state),                 // [C02.settle.with-state] ... or with exactly the state given (the disposition's), on its own channel and no other
 //@@ end
+//@@ fn file=fe2o3-amqp/src/link/delivery.rs impl=`impl UnsettledMessage` name=abandon_waiter
+//@@ subst `let (closed, _) = oneshot::channel();` => `let closed = oneshot_detached_sender();` rule=R9
+//@@ spec
+    ensures
+        final(self).sender.detached(),                                                                   // [C14.session-stop.waiter-released] the message no longer holds the sending half its waiter listens on (an overwritten value is dropped; tokio completes the receiver of a dropped oneshot sender with RecvError): the waiting send stops waiting
+        *final(self) == (UnsettledMessage { sender: final(self).sender, ..*old(self) }),                 // [C14.session-stop.delivery-kept-for-resumption] payload, state and format stay: the delivery can still be resumed on another session
+//@@ end
 }
 
 impl LinkRelay<OutputHandle> {
@@ -251,6 +281,41 @@ impl LinkRelay<OutputHandle> {
             _ => false,
         }
     }
+
+//@@ fn file=fe2o3-amqp/src/link/mod.rs impl=`impl LinkRelay<OutputHandle>` name=abandon_pending_deliveries
+//@@ selfmut
+//@@ subst `unsettled.write()` => `&mut *unsettled` rule=R4
+//@@ subst `guard.as_mut()` => `guard` rule=R15
+//@@ spec
+    ensures
+        final(self).same_but_unsettled(*old(self)),
+        *old(self) is Sender ==> ({
+            let m0 = old(self).s_unsettled();
+            let m1 = final(self).s_unsettled();
+            &&& m1.dom() =~= m0.dom()                                                                        // [C14.session-stop.delivery-kept-for-resumption] every unsettled delivery stays in the map
+            &&& forall|k: DeliveryTag| m0.contains_key(k) ==> (#[trigger] m1[k]).sender.detached()          // [C14.session-stop.every-waiter-released] the waiter of EVERY delivery that is still unsettled is released, none is skipped
+                    && m1[k] == (UnsettledMessage { sender: m1[k].sender, ..m0[k] })
+        }),
+        *old(self) is Receiver ==> *final(self) == *old(self),
+//@@ loop 0
+        invariant
+            __im0 <= map.order().len(), map.order() == ord0, map@.dom() =~= mm0.dom(),
+            forall|j: int| 0 <= j < __im0 ==> (#[trigger] map@[ord0[j]]).sender.detached() && map@[ord0[j]] == (UnsettledMessage { sender: map@[ord0[j]].sender, ..mm0[ord0[j]] }),
+            forall|j: int| __im0 <= j < ord0.len() ==> #[trigger] map@[ord0[j]] == mm0[ord0[j]],
+            ord0.no_duplicates(), forall|k: DeliveryTag| #[trigger] mm0.contains_key(k) ==> ord0.contains(k),
+        decreases ord0.len() - __im0,
+//@@ at `Some(map) = guard {` after
+                let ghost ord0 = map.order();
+                let ghost mm0 = map@;
+                let __n0 = map.len();
+//@@ loopend 0
+                proof {
+                    assert forall|j: int| 0 <= j < __im0 implies (#[trigger] map@[ord0[j]]).sender.detached() && map@[ord0[j]] == (UnsettledMessage { sender: map@[ord0[j]].sender, ..mm0[ord0[j]] }) by {
+                        if j < __im0 - 1 { assert(ord0[j] != ord0[__im0 - 1]); }
+                    }
+                    assert forall|j: int| __im0 <= j < ord0.len() implies #[trigger] map@[ord0[j]] == mm0[ord0[j]] by { assert(ord0[j] != ord0[__im0 - 1]); }
+                }
+//@@ end
 
 //@@ fn file=fe2o3-amqp/src/link/mod.rs impl=`impl LinkRelay<OutputHandle>` name=on_incoming_disposition retname=echo
 //@@ subst `guard .as_mut() .and_then(|m| m.swap_remove(&delivery_tag)) .map(|msg| msg.settle_with_state(state))` => `opt_swap_remove(&mut *guard, &delivery_tag).map(|msg: UnsettledMessage| -> (o: Result<(), Option<DeliveryState>>) { msg.settle_with_state(state) })` rule=R15
